@@ -5,11 +5,21 @@ What the header block written by an encoder denotes (C01, header layer):
 name, filename and header list — for every name and filename without quote,
 backslash and line break (`;`, `=`, spaces, non-ASCII bytes … included).
 -/
-import BaizeVerif.Model.Multipart
+import BaizeVerif.Lemmas.MultipartHelper
 
 namespace Baize.Multipart
 
 /-! ### small string facts -/
+
+theorem lbLen_cons_of_not_isLB' {c : Nat} (r : Bytes) (h : isLB c = false) : lbLen (c :: r) = 0 := by
+  have h13 : c ≠ 13 := by intro h'; subst h'; cases h
+  have h10 : c ≠ 10 := by intro h'; subst h'; cases h
+  unfold lbLen
+  split
+  · rename_i heq; injection heq with h1 _; exact absurd h1 h13
+  · rename_i heq; injection heq with h1 _; exact absurd h1 h10
+  · rename_i heq; injection heq with h1 _; exact absurd h1 h13
+  · rfl
 
 theorem stripBy_ends (p : Nat → Bool) (a z : Nat) (m : List Nat) (ha : p a = false) (hz : p z = false) :
     stripBy p (a :: m ++ [z]) = a :: m ++ [z] := by
@@ -290,5 +300,479 @@ theorem parseParam_succ (fuel : Nat) (s : List Nat) :
 
 theorem parseParam_nil (fuel : Nat) : parseParam fuel [] = [] := by
   cases fuel <;> simp [parseParam]
+
+/-! ### one `key="value"` option -/
+
+/-- an option key as the encoder writes it (`name`, `filename`): lower-case ASCII letters -/
+def KeyOK (K : List Nat) : Prop :=
+  (∃ a m z, K = a :: m ++ [z]) ∧ ∀ x ∈ K, 97 ≤ x ∧ x ≤ 122
+
+theorem keyOK_facts {K : List Nat} (h : KeyOK K) :
+    (∀ x ∈ K, x ≠ 61) ∧ stripBy isPySpace K = K ∧ lowerAscii K = K := by
+  obtain ⟨⟨a, m, z, hK⟩, hr⟩ := h
+  refine ⟨fun x hx => by have := hr x hx; omega, ?_, ?_⟩
+  · have ha := hr a (by rw [hK]; simp)
+    have hz := hr z (by rw [hK]; simp)
+    rw [hK]
+    apply stripBy_ends
+    · simp [isPySpace]; omega
+    · simp [isPySpace]; omega
+  · unfold lowerAscii
+    rw [List.map_congr_left (g := id)]
+    · simp
+    · intro x hx
+      have := hr x hx
+      have h1 : ¬ (65 ≤ x ∧ x ≤ 90) := by omega
+      have h2 : ¬ (192 ≤ x ∧ x ≤ 222) := by omega
+      simp [h1]
+      intro h3 h4; omega
+
+theorem parseOption_quoted (K N : List Nat) (hK : KeyOK K) (hN : QuoteFree N) :
+    parseOption (K ++ 61 :: 34 :: N ++ [34]) = some (K, N) := by
+  obtain ⟨hK61, hKstrip, hKlower⟩ := keyOK_facts hK
+  unfold parseOption
+  have hfind : findSub [61] (K ++ 61 :: 34 :: N ++ [34]) = some K.length := by
+    have : K ++ 61 :: 34 :: N ++ [34] = K ++ (61 :: (34 :: N ++ [34])) := by simp
+    rw [this, findSub_single_append 61 K _ hK61, findSub_single_cons_eq]
+    simp
+  rw [hfind]
+  simp only
+  have htake : (K ++ 61 :: 34 :: N ++ [34]).take K.length = K := by
+    rw [List.append_assoc, List.take_left]
+  have hdrop : (K ++ 61 :: 34 :: N ++ [34]).drop (K.length + 1) = 34 :: N ++ [34] := by
+    have : K ++ 61 :: 34 :: N ++ [34] = (K ++ [61]) ++ (34 :: N ++ [34]) := by simp
+    rw [this]
+    have hl : K.length + 1 = (K ++ [61]).length := by simp
+    rw [hl, List.drop_left]
+  rw [htake, hdrop, hKstrip, hKlower]
+  have hstrip : stripBy isPySpace (34 :: N ++ [34]) = 34 :: N ++ [34] :=
+    stripBy_ends isPySpace 34 34 N (by decide) (by decide)
+  rw [hstrip]
+  have hlen : (34 :: N ++ [34]).length ≥ 2 := by simp
+  have hhead : (34 :: N ++ [34]).head? = some 34 := rfl
+  have hlast : (34 :: N ++ [34]).getLast? = some 34 := by
+    have : 34 :: N ++ [34] = (34 :: N) ++ [34] := rfl
+    rw [this, List.getLast?_append]; rfl
+  have hinner : ((34 :: N ++ [34]).drop 1).take ((34 :: N ++ [34]).length - 2) = N := by simp
+  simp only [hlen, hhead, hlast, decide_true, Bool.and_self, beq_self_eq_true, if_true, hinner,
+    replaceAll_quoteFree N hN]
+
+/-! ### `parse_header` on a Content-Disposition value -/
+
+/-- "form-data" -/
+def fdBytes : List Nat := [102, 111, 114, 109, 45, 100, 97, 116, 97]
+
+/-- the value an encoder writes: `form-data; name="N"` or `form-data; name="N"; filename="F"` -/
+def cdValue (N : List Nat) : Option (List Nat) → List Nat
+  | none => fdBytes ++ 59 :: 32 :: (nameKey ++ 61 :: 34 :: N ++ [34])
+  | some F => fdBytes ++ 59 :: 32 :: (nameKey ++ 61 :: 34 :: N ++ 34 :: 59 :: 32 :: (filenameKey ++ 61 :: 34 :: F ++ [34]))
+
+theorem nameKey_ok : KeyOK nameKey := by
+  refine ⟨⟨110, [97, 109], 101, rfl⟩, ?_⟩
+  decide
+
+theorem filenameKey_ok : KeyOK filenameKey := by
+  refine ⟨⟨102, [105, 108, 101, 110, 97, 109], 101, rfl⟩, ?_⟩
+  decide
+
+/-- the field ` key="V"` seen by `_parseparam` (leading space, no `;`/quote/backslash in the key) -/
+theorem field_quoted (K V rest : List Nat) (hK : KeyOK K) (hV : QuoteFree V)
+    (hrest : rest = [] ∨ ∃ r, rest = 59 :: r) :
+    let s := 32 :: (K ++ 61 :: 34 :: V ++ 34 :: rest)
+    stripBy isPySpace (s.take (fieldEnd s)) = K ++ 61 :: 34 :: V ++ [34] ∧ s.drop (fieldEnd s) = rest := by
+  intro s
+  obtain ⟨⟨a, m, z, hKs⟩, hr⟩ := hK
+  have hA : ∀ x ∈ 32 :: (K ++ [61]), x ≠ 59 ∧ x ≠ 34 ∧ x ≠ 92 := by
+    intro x hx
+    simp only [List.mem_cons, List.mem_append, List.mem_nil_iff, or_false] at hx
+    rcases hx with rfl | hx | rfl
+    · decide
+    · have := hr x hx; omega
+    · decide
+  have hs : s = (32 :: (K ++ [61])) ++ 34 :: V ++ 34 :: rest := by simp [s]
+  have he : fieldEnd s = (32 :: (K ++ [61])).length + V.length + 2 := by
+    rw [hs]; exact fieldEnd_quoted _ V rest hA hV hrest
+  have hsplit : s = (32 :: (K ++ 61 :: 34 :: V ++ [34])) ++ rest := by simp [s]
+  have hlen : fieldEnd s = (32 :: (K ++ 61 :: 34 :: V ++ [34])).length := by
+    rw [he]; simp; omega
+  constructor
+  · rw [hlen, hsplit, List.take_left, stripBy_cons_space isPySpace 32 _ (by decide)]
+    have ha := hr a (by rw [hKs]; simp)
+    have : K ++ 61 :: 34 :: V ++ [34] = a :: (m ++ [z] ++ 61 :: 34 :: V) ++ [34] := by rw [hKs]; simp
+    rw [this]
+    apply stripBy_ends
+    · simp [isPySpace]; omega
+    · decide
+  · rw [hlen, hsplit, List.drop_left]
+
+theorem parseHeaderValue_cd (N : List Nat) (F : Option (List Nat)) (hN : QuoteFree N)
+    (hF : ∀ f, F = some f → QuoteFree f) :
+    parseHeaderValue (cdValue N F) =
+      (fdBytes, match F with
+        | none => [(nameKey, N)]
+        | some f => [(nameKey, N), (filenameKey, f)]) := by
+  unfold parseHeaderValue
+  have hfd : ∀ x ∈ fdBytes, x ≠ 59 ∧ x ≠ 34 := by decide
+  have hfdstrip : stripBy isPySpace fdBytes = fdBytes := by decide
+  cases F with
+  | none =>
+    obtain ⟨h2a, h2b⟩ := field_quoted nameKey N [] nameKey_ok hN (Or.inl rfl)
+    have hline : cdValue N none = fdBytes ++ 59 :: (32 :: (nameKey ++ 61 :: 34 :: N ++ 34 :: [])) := by
+      simp [cdValue]
+    have hfuel : (cdValue N none).length + 2 = ((cdValue N none).length - 1) + 3 := by
+      simp [cdValue, fdBytes]
+    rw [hfuel, hline, parseParam_succ, fieldEnd_plain fdBytes _ hfd]
+    rw [List.take_left, List.drop_left, hfdstrip, parseParam_succ, h2a, h2b, parseParam_nil]
+    have hpo : parseOption (nameKey ++ 61 :: 34 :: (N ++ [34])) = some (nameKey, N) :=
+      parseOption_quoted nameKey N nameKey_ok hN
+    simp [List.filterMap, hpo, dictSet]
+  | some f =>
+    have hf := hF f rfl
+    obtain ⟨h2a, h2b⟩ := field_quoted nameKey N (59 :: 32 :: (filenameKey ++ 61 :: 34 :: f ++ 34 :: []))
+      nameKey_ok hN (Or.inr ⟨_, rfl⟩)
+    obtain ⟨h3a, h3b⟩ := field_quoted filenameKey f [] filenameKey_ok hf (Or.inl rfl)
+    have hline : cdValue N (some f) = fdBytes ++ 59 :: (32 :: (nameKey ++ 61 :: 34 :: N ++ 34 ::
+        (59 :: 32 :: (filenameKey ++ 61 :: 34 :: f ++ 34 :: [])))) := by
+      simp [cdValue]
+    have hfuel : (cdValue N (some f)).length + 2 = ((cdValue N (some f)).length - 2) + 4 := by
+      simp [cdValue, fdBytes]
+    rw [hfuel, hline, parseParam_succ, fieldEnd_plain fdBytes _ hfd]
+    rw [List.take_left, List.drop_left, hfdstrip, parseParam_succ, h2a, h2b, parseParam_succ, h3a, h3b,
+      parseParam_nil]
+    have hpo1 : parseOption (nameKey ++ 61 :: 34 :: (N ++ [34])) = some (nameKey, N) :=
+      parseOption_quoted nameKey N nameKey_ok hN
+    have hpo2 : parseOption (filenameKey ++ 61 :: 34 :: (f ++ [34])) = some (filenameKey, f) :=
+      parseOption_quoted filenameKey f filenameKey_ok hf
+    have hne : (nameKey = filenameKey) = False := by simp [nameKey, filenameKey]
+    simp [List.filterMap, hpo1, hpo2, dictSet, hne]
+
+/-! ### header lines -/
+
+/-- lines joined by CRLF -/
+def joinLines : List Bytes → Bytes
+  | [] => []
+  | [l] => l
+  | l :: l' :: ls => l ++ 13 :: 10 :: joinLines (l' :: ls)
+
+/-- the bytes of one header line as they sit in the block -/
+def LineBytesOK (l : Bytes) : Prop :=
+  (∃ a m z, l = a :: m ++ [z] ∧ isAsciiSpace a = false ∧ isAsciiSpace z = false) ∧ (∀ x ∈ l, isLB x = false)
+
+theorem subContGo_noLB (l rest : Bytes) (h : ∀ x ∈ l, isLB x = false) :
+    subContGo 0 (l ++ rest) = l ++ subContGo 0 rest := by
+  induction l with
+  | nil => rfl
+  | cons c cs ih =>
+    have hc : isLB c = false := h c (by simp)
+    show subContGo 0 (c :: (cs ++ rest)) = _
+    rw [subContGo]
+    have hk : lbLen (c :: (cs ++ rest)) = 0 := lbLen_cons_of_not_isLB' _ hc
+    simp only [hk, Nat.lt_irrefl, decide_false, Bool.false_and, Bool.false_eq_true, if_false]
+    rw [ih (fun x hx => h x (by simp [hx]))]
+    rfl
+
+theorem subContGo_crlf (x : Nat) (r : Bytes) (h32 : x ≠ 32) (h9 : x ≠ 9) :
+    subContGo 0 (13 :: 10 :: x :: r) = 13 :: 10 :: subContGo 0 (x :: r) := by
+  rw [subContGo]
+  simp only [lbLen, List.drop, h32, h9]
+  simp
+  rw [subContGo]
+  simp [lbLen, h32, h9]
+
+theorem subContinuation_joinLines :
+    ∀ (ls : List Bytes), (∀ l ∈ ls, LineBytesOK l) → subContinuation (joinLines ls) = joinLines ls
+  | [], _ => rfl
+  | [l], h => by
+    have hl := (h l (by simp)).2
+    unfold subContinuation
+    have := subContGo_noLB l [] hl
+    simpa [joinLines, subContGo] using this
+  | l :: l' :: ls, h => by
+    have hl := (h l (by simp)).2
+    obtain ⟨⟨a, m0, z0, hl0, has, _⟩, _⟩ := h l' (by simp)
+    have hl' : l' = a :: (m0 ++ [z0]) := by rw [hl0]; rfl
+    generalize m0 ++ [z0] = m at hl'
+    have ih := subContinuation_joinLines (l' :: ls) (fun x hx => h x (by simp [hx]))
+    unfold subContinuation at ih ⊢
+    rw [joinLines, subContGo_noLB l _ hl]
+    have hjoin : ∃ r, joinLines (l' :: ls) = a :: r := by
+      cases ls with
+      | nil => exact ⟨m, by simp [joinLines, hl']⟩
+      | cons l'' ls => exact ⟨m ++ 13 :: 10 :: joinLines (l'' :: ls), by simp [joinLines, hl']⟩
+    obtain ⟨r, hr⟩ := hjoin
+    have h32 : a ≠ 32 := by intro h; subst h; simp [isAsciiSpace] at has
+    have h9 : a ≠ 9 := by intro h; subst h; simp [isAsciiSpace] at has
+    rw [hr, subContGo_crlf a r h32 h9, ← hr, ih]
+
+theorem splitLinesGo_noLB (l rest cur : Bytes) (h : ∀ x ∈ l, isLB x = false) :
+    splitLinesGo (l ++ rest) cur = splitLinesGo rest (l.reverse ++ cur) := by
+  induction l generalizing cur with
+  | nil => rfl
+  | cons c cs ih =>
+    have hc : isLB c = false := h c (by simp)
+    have h13 : c ≠ 13 := by intro h'; subst h'; cases hc
+    have h10 : c ≠ 10 := by intro h'; subst h'; cases hc
+    show splitLinesGo (c :: (cs ++ rest)) cur = _
+    rw [splitLinesGo]
+    · rw [ih (c :: cur) (fun x hx => h x (by simp [hx]))]
+      simp
+    · intro r hr _; exact h13 hr
+    · intro hr; exact h13 hr
+    · intro hr; exact h10 hr
+
+theorem splitLines_joinLines :
+    ∀ (ls : List Bytes), (∀ l ∈ ls, LineBytesOK l) → splitLines (joinLines ls) = ls
+  | [], _ => rfl
+  | [l], h => by
+    obtain ⟨⟨a, m, z, hl, _, _⟩, hnl⟩ := h l (by simp)
+    unfold splitLines
+    have := splitLinesGo_noLB l [] [] hnl
+    simp only [List.append_nil] at this
+    rw [joinLines, this, splitLinesGo]
+    simp [hl]
+  | l :: l' :: ls, h => by
+    obtain ⟨_, hnl⟩ := h l (by simp)
+    have ih := splitLines_joinLines (l' :: ls) (fun x hx => h x (by simp [hx]))
+    unfold splitLines at ih ⊢
+    rw [joinLines, splitLinesGo_noLB l _ [] hnl, splitLinesGo]
+    simp [ih]
+
+/-! ### from the header block to the event -/
+
+/-- one header line: its bytes in the block, and the name / value it carries after decoding -/
+structure HLine where
+  bytes : Bytes
+  key : List Nat
+  value : List Nat
+
+/-- the line is `key: value` after decoding with the part charset; key and value have no
+surrounding white space (so `strip` leaves them alone), the key has no colon -/
+structure HLineOK (cs : Charset) (l : HLine) : Prop where
+  bytesOK : LineBytesOK l.bytes
+  decodes : safeDecode cs l.bytes = l.key ++ 58 :: 32 :: l.value
+  noColon : ∀ x ∈ l.key, x ≠ 58
+  keyStrip : stripBy isPySpace l.key = l.key
+  valueStrip : stripBy isPySpace (32 :: l.value) = l.value
+
+theorem splitColon_key (k v : List Nat) (h : ∀ x ∈ k, x ≠ 58) :
+    splitColon (k ++ 58 :: v) = some (k, v) := by
+  induction k with
+  | nil => simp [splitColon]
+  | cons a k ih =>
+    have ha : a ≠ 58 := h a (by simp)
+    show splitColon (a :: (k ++ 58 :: v)) = _
+    rw [splitColon]
+    simp [ha, ih (fun x hx => h x (by simp [hx]))]
+
+theorem stripBy_lineBytes (l : Bytes) (h : LineBytesOK l) : stripBy isAsciiSpace l = l := by
+  obtain ⟨⟨a, m, z, hl, ha, hz⟩, _⟩ := h
+  rw [hl]; exact stripBy_ends isAsciiSpace a z m ha hz
+
+theorem parseHeaderLines_lines (cs : Charset) (ls : List HLine) (h : ∀ l ∈ ls, HLineOK cs l) :
+    parseHeaderLines cs (joinLines (ls.map (·.bytes))) = some (ls.map fun l => (l.key, l.value)) := by
+  have hb : ∀ b ∈ ls.map (·.bytes), LineBytesOK b := by
+    intro b hb
+    rw [List.mem_map] at hb
+    obtain ⟨l, hl, rfl⟩ := hb
+    exact (h l hl).bytesOK
+  unfold parseHeaderLines
+  rw [subContinuation_joinLines _ hb, splitLines_joinLines _ hb]
+  have hstrip : (ls.map (·.bytes)).map (stripBy isAsciiSpace) = ls.map (·.bytes) := by
+    rw [List.map_map]
+    apply List.map_congr_left
+    intro l hl
+    exact stripBy_lineBytes _ (h l hl).bytesOK
+  have hfilter : (ls.map (·.bytes)).filter (fun l => !l.isEmpty) = ls.map (·.bytes) := by
+    rw [List.filter_eq_self]
+    intro b hb'
+    obtain ⟨⟨a, m, z, hl, _, _⟩, _⟩ := hb b hb'
+    rw [hl]; rfl
+  simp only [hstrip, hfilter]
+  clear hstrip hfilter hb
+  induction ls with
+  | nil => rfl
+  | cons l ls ih =>
+    have hl := h l (by simp)
+    have ih' := ih (fun x hx => h x (by simp [hx]))
+    simp only [List.map_cons, List.mapM_cons]
+    rw [hl.decodes]
+    have : l.key ++ 58 :: 32 :: l.value = l.key ++ 58 :: (32 :: l.value) := rfl
+    rw [this, splitColon_key l.key _ hl.noColon]
+    simp only [hl.keyStrip, hl.valueStrip]
+    rw [ih']
+    rfl
+
+/-- `Headers(pairs)` when no name repeats: the pairs with lower-cased names, in order -/
+theorem foldHeaders_distinct :
+    ∀ (ps acc : List (List Nat × List Nat)),
+      ((acc.map (·.1)) ++ ps.map (fun p => lowerAscii p.1)).Nodup →
+      foldHeaders ps acc = acc ++ ps.map fun p => (lowerAscii p.1, p.2)
+  | [], acc, _ => by simp [foldHeaders]
+  | (k, v) :: ps, acc, h => by
+    rw [foldHeaders]
+    simp only
+    have hnot : lowerAscii k ∉ acc.map (·.1) := by
+      intro hm
+      rw [List.nodup_append] at h
+      exact h.2.2 _ hm _ (by simp) rfl
+    have hfind : acc.find? (fun x => x.1 = lowerAscii k) = none := by
+      rw [List.find?_eq_none]
+      intro x hx heq
+      simp only [decide_eq_true_eq] at heq
+      exact hnot (by rw [← heq]; exact List.mem_map_of_mem hx)
+    rw [hfind]
+    have hnd : ((acc ++ [(lowerAscii k, v)]).map (·.1) ++ ps.map (fun p => lowerAscii p.1)).Nodup := by
+      simpa [List.append_assoc] using h
+    rw [foldHeaders_distinct ps (acc ++ [(lowerAscii k, v)]) hnd]
+    simp
+
+/-- "Content-Disposition" as the encoder writes it -/
+def cdHeaderName : List Nat :=
+  [67,111,110,116,101,110,116,45,68,105,115,112,111,115,105,116,105,111,110]
+
+theorem lower_cdHeaderName : lowerAscii cdHeaderName = cdName := by decide
+
+/-- **what an encoder's header block denotes.**  First line
+`Content-Disposition: form-data; name="N"[; filename="F"]`, then further lines
+with pairwise different names: the block is read back as the field / file event
+with exactly the name `N`, the filename `F` and the header list. -/
+theorem headerEvent_rendered (cs : Charset) (N : List Nat) (F : Option (List Nat)) (cdBytes : Bytes)
+    (extra : List HLine) (hN : QuoteFree N) (hF : ∀ f, F = some f → QuoteFree f)
+    (hcd : HLineOK cs ⟨cdBytes, cdHeaderName, cdValue N F⟩) (hextra : ∀ l ∈ extra, HLineOK cs l)
+    (hkeys : (cdName :: extra.map (fun l => lowerAscii l.key)).Nodup) :
+    headerEvent cs (joinLines (cdBytes :: extra.map (·.bytes))) =
+      match F with
+      | none => .field (some N) ((cdName, cdValue N F) :: extra.map fun l => (lowerAscii l.key, l.value))
+      | some f => .file (some N) f ((cdName, cdValue N F) :: extra.map fun l => (lowerAscii l.key, l.value)) := by
+  have hall : ∀ l ∈ (⟨cdBytes, cdHeaderName, cdValue N F⟩ : HLine) :: extra, HLineOK cs l := by
+    intro l hl
+    rw [List.mem_cons] at hl
+    rcases hl with rfl | hl
+    · exact hcd
+    · exact hextra l hl
+  have hlines := parseHeaderLines_lines cs (⟨cdBytes, cdHeaderName, cdValue N F⟩ :: extra) hall
+  simp only [List.map_cons] at hlines
+  unfold headerEvent
+  rw [hlines]
+  simp only
+  have hfold : foldHeaders ((cdHeaderName, cdValue N F) :: extra.map fun l => (l.key, l.value)) [] =
+      (cdName, cdValue N F) :: extra.map fun l => (lowerAscii l.key, l.value) := by
+    rw [foldHeaders_distinct _ [] (by simpa [lower_cdHeaderName, List.map_map, Function.comp_def] using hkeys)]
+    simp [lower_cdHeaderName, List.map_map]
+  rw [hfold]
+  have hlook : lookup cdName ((cdName, cdValue N F) :: extra.map fun l => (lowerAscii l.key, l.value)) =
+      some (cdValue N F) := by
+    simp [lookup]
+  rw [hlook]
+  simp only
+  rw [parseHeaderValue_cd N F hN hF]
+  cases F with
+  | none => simp [lookup, nameKey, filenameKey]
+  | some f => simp [lookup, nameKey, filenameKey]
+
+/-! ### a block of well-formed lines is a well-formed header block (`HdrOK`) -/
+
+theorem blankAt_cons_nonLB (x : Nat) (r : Bytes) (h : isLB x = false) : blankAt (x :: r) = 0 := by
+  obtain ⟨h13, h10⟩ := not_isLB h
+  cases r with
+  | nil => rfl
+  | cons y r => rw [blankAt_cons_cons]; simp [h13, h10]
+
+theorem joinLines_head (l : Bytes) (ls : List Bytes) (a : Nat) (m : Bytes) (hl : l = a :: m) :
+    ∃ r, joinLines (l :: ls) = a :: r := by
+  cases ls with
+  | nil => exact ⟨m, by simp [joinLines, hl]⟩
+  | cons l' ls => exact ⟨m ++ 13 :: 10 :: joinLines (l' :: ls), by simp [joinLines, hl]⟩
+
+theorem blankAt_suffix_joinLines :
+    ∀ (ls : List Bytes), (∀ l ∈ ls, LineBytesOK l) → ∀ A1 A2, joinLines ls = A1 ++ A2 → blankAt A2 = 0
+  | [], _, A1, A2, h => by
+    simp only [joinLines] at h
+    have : A2 = [] := by
+      cases A1 <;> cases A2 <;> simp_all
+    subst this; rfl
+  | [l], hok, A1, A2, h => by
+    simp only [joinLines] at h
+    have hnl := (hok l (by simp)).2
+    cases A2 with
+    | nil => rfl
+    | cons x r => exact blankAt_cons_nonLB x r (hnl x (by rw [h]; simp))
+  | l :: l' :: ls, hok, A1, A2, h => by
+    have hnl := (hok l (by simp)).2
+    obtain ⟨⟨a, m0, z0, hl0, has, _⟩, hnl'⟩ := hok l' (by simp)
+    have ha : isLB a = false := hnl' a (by rw [hl0]; simp)
+    obtain ⟨r, hr⟩ := joinLines_head l' ls a (m0 ++ [z0]) (by rw [hl0]; rfl)
+    have ih := blankAt_suffix_joinLines (l' :: ls) (fun x hx => hok x (by simp [hx]))
+    rw [joinLines] at h
+    -- where does A2 start: inside `l`, at the CR, at the LF, or inside the rest
+    rcases List.append_eq_append_iff.mp h with ⟨c', hA1, hrest⟩ | ⟨c', hl, hA2⟩
+    · -- A1 = l ++ c', and c' ++ A2 = CR LF rest
+      match c', hrest with
+      | [], hrest =>
+        simp only [List.nil_append] at hrest
+        rw [← hrest, hr, blankAt_cons_cons]
+        obtain ⟨h13, h10⟩ := not_isLB ha
+        cases r with
+        | nil => rfl
+        | cons d t => simp [h13]
+      | [x], hrest =>
+        simp only [List.cons_append, List.nil_append] at hrest
+        injection hrest with _ hrest
+        rw [← hrest, hr, blankAt_cons_cons]
+        obtain ⟨h13, h10⟩ := not_isLB ha
+        simp [h10]
+      | x :: y :: c'', hrest =>
+        simp only [List.cons_append] at hrest
+        injection hrest with _ hrest
+        injection hrest with _ hrest
+        exact ih c'' A2 hrest
+    · -- A2 starts inside `l`
+      cases c' with
+      | nil =>
+        simp only [List.nil_append] at hA2
+        rw [hA2, hr, blankAt_cons_cons]
+        obtain ⟨h13, h10⟩ := not_isLB ha
+        cases r with
+        | nil => rfl
+        | cons d t => simp [h13]
+      | cons x c'' =>
+        rw [hA2]
+        exact blankAt_cons_nonLB x _ (hnl x (by rw [hl]; simp))
+
+theorem joinLines_last :
+    ∀ (ls : List Bytes) (l : Bytes), (∀ y ∈ ls ++ [l], LineBytesOK y) →
+      ∃ r x, joinLines (ls ++ [l]) = r ++ [x] ∧ isLB x = false
+  | [], l, h => by
+    obtain ⟨⟨a, m, z, hl, _, _⟩, hnl⟩ := h l (by simp)
+    exact ⟨a :: m, z, by simp [joinLines, hl], hnl z (by rw [hl]; simp)⟩
+  | [l0], l, h => by
+    obtain ⟨⟨a, m, z, hl, _, _⟩, hnl⟩ := h l (by simp)
+    exact ⟨l0 ++ 13 :: 10 :: a :: m, z, by simp [joinLines, hl], hnl z (by rw [hl]; simp)⟩
+  | l0 :: l1 :: ls, l, h => by
+    obtain ⟨r, x, hr, hx⟩ := joinLines_last (l1 :: ls) l (fun y hy => h y (List.mem_cons_of_mem l0 hy))
+    refine ⟨l0 ++ 13 :: 10 :: r, x, ?_, hx⟩
+    have : (l0 :: l1 :: ls) ++ [l] = l0 :: ((l1 :: ls) ++ [l]) := rfl
+    rw [this]
+    have h2 : (l1 :: ls) ++ [l] = l1 :: (ls ++ [l]) := rfl
+    rw [h2, joinLines, ← h2, hr]
+    simp
+
+theorem hdrOK_joinLines (l : Bytes) (ls : List Bytes) (h : ∀ x ∈ l :: ls, LineBytesOK x) :
+    HdrOK (joinLines (l :: ls)) := by
+  obtain ⟨⟨a, m, z, hl, has, _⟩, hnl⟩ := h l (by simp)
+  have ha : isLB a = false := hnl a (by rw [hl]; simp)
+  refine ⟨?_, ?_, blankAt_suffix_joinLines (l :: ls) h⟩
+  · obtain ⟨r, hr⟩ := joinLines_head l ls a (m ++ [z]) (by rw [hl]; rfl)
+    refine ⟨a, r, hr, ha, ?_, ?_⟩
+    · intro h'; subst h'; simp [isAsciiSpace] at has
+    · intro h'; subst h'; simp [isAsciiSpace] at has
+  · -- the last line ends the block
+    have hsplit : ∃ init last, l :: ls = init ++ [last] := by
+      cases hrev : (l :: ls).reverse with
+      | nil => simp at hrev
+      | cons y t => exact ⟨t.reverse, y, by have := congrArg List.reverse hrev; simpa using this⟩
+    obtain ⟨init, last, hs⟩ := hsplit
+    rw [hs] at h ⊢
+    exact joinLines_last init last h
 
 end Baize.Multipart
